@@ -29,6 +29,8 @@ struct ReqState {
     resp: u64,
     fail: u64,
     k: Option<u64>,
+    /// multi-packet answers: packets still expected after the first one
+    remaining: Option<u64>,
     terminal: bool,
     node: usize,
     to_addr: Option<SocketAddr>,
@@ -136,11 +138,27 @@ impl Oracle for Outcomes {
                         ResponseBody::Nodes { total, .. } => (*total).max(1),
                         _ => 1,
                     };
+                    // which packet completes the request: the first multi-packet answer announces how
+                    // many packets are expected (later totals do not change that), and a packet that
+                    // announces a total of at most 1 always completes it. (A peer whose application saw
+                    // the request twice - re-encryption after a re-keying - may answer twice with
+                    // different totals.)
+                    if k <= 1 {
+                        st.terminal = true;
+                    } else {
+                        match st.remaining {
+                            None => st.remaining = Some(k - 1),
+                            Some(r) => {
+                                let r = r.saturating_sub(1);
+                                st.remaining = Some(r);
+                                if r == 0 {
+                                    st.terminal = true;
+                                }
+                            }
+                        }
+                    }
                     if st.k.is_none() {
                         st.k = Some(k);
-                    }
-                    if st.resp >= st.k.unwrap_or(1) {
-                        st.terminal = true;
                     }
                 }
                 HandlerOut::RequestFailed(id, err) => {
@@ -214,10 +232,19 @@ impl Oracle for Outcomes {
                             }
                         }
                         if let Some((Message::Response(r), _)) = decrypt(dg, &dec) {
+                            // same rule as for the terminal outcome: the first multi-packet answer fixes how
+                            // many packets are needed, a packet announcing <= 1 completes the answer
                             let e = self.delivered.entry((j.to_node, j.from_addr, r.id.clone())).or_insert((0, 1));
+                            let first = e.0 == 0;
                             e.0 += 1;
-                            if let ResponseBody::Nodes { total, .. } = r.body {
-                                e.1 = total.max(1);
+                            let total = match r.body {
+                                ResponseBody::Nodes { total, .. } => total.max(1),
+                                _ => 1,
+                            };
+                            if total <= 1 {
+                                e.1 = e.0;
+                            } else if first {
+                                e.1 = total;
                             }
                         }
                     }
